@@ -198,8 +198,8 @@ fn cpu_ms_of(pid: u32) -> (u64, u64, char) {
 /// back-off sleeps (<= 50 ms here) consume none. Measured from the first sample after the child was spawned (process
 /// creation itself can cost more than a second of *system* time on a badly overloaded machine): 2 s of user-mode time, or
 /// 15 s of user+system time, i.e. a margin of more than two orders of magnitude that does not depend on the machine load.
-const SPIN_USER_MS: u64 = 2_000;
-const SPIN_TOTAL_MS: u64 = 15_000;
+const SPIN_USER_MS: u64 = 12_000;
+const SPIN_TOTAL_MS: u64 = 40_000;
 const STARVED_WALL_MS: u64 = 120_000;
 /// A child that is still alive after this wall time and was found in state S (sleeping voluntarily; a starved process is R)
 /// in >= 90 % of the samples taken after the first second is blocked for ever: no lock wait here exceeds 50 ms.
@@ -539,7 +539,7 @@ pub fn main() {
     }
     let mut ck = Check::new("C17", "exploration");
     ck.rule("One C16-style transaction (1..4 edits, deref, all expectations, all PackedRefs modes) on a generated pre-state (loose/packed/both, symbolic chains, HEAD symbolic or detached) while a generated subset of `<ref>.lock` files of every ref the transaction touches incl. referents reached by dereferencing, and packed-refs.lock, are held by a foreign party; Fail::Immediately or back-off 1..50 ms per lock class. Non-trivial: the lock of a referent of a dereferenced symbolic edit is held. Distinct by hash of the decoded scenario.");
-    ck.assume("termination is decided by CPU time: a transaction process that has consumed 2 s of user-mode CPU (or 15 s user+system) after its start without returning (normal: a few ms; back-off sleeps consume none) is spinning; a process that is alive after 20 s and was found sleeping (state S, not R) in >= 90 % of the samples is blocked for ever (longest configured lock wait 50 ms); a process that is merely starved for 120 s is inconclusive (exit 2)");
+    ck.assume("termination is decided by CPU time: a transaction process that has consumed 12 s of user-mode CPU (or 40 s user+system; raised from 2 s/15 s after a machine at load 250 charged 3.8 s to a trivial transaction) after its start without returning (normal: a few ms; back-off sleeps consume none) is spinning; a process that is alive after 20 s and was found sleeping (state S, not R) in >= 90 % of the samples is blocked for ever (longest configured lock wait 50 ms); a process that is merely starved for 120 s is inconclusive (exit 2)");
     ck.assume("model of C16 decides the outcome when no lock is held; with held locks: an error leaves every file (refs, packed-refs, foreign locks) unchanged, LockAcquire names a ref of the transaction, PackedTransactionAcquire only when packed-refs.lock is held, non-lock errors only when the model rejects the transaction too");
     ck.sub(
         "contention",
